@@ -100,7 +100,8 @@ CHECKS = {
     ),
     "C06": dict(
         title="Decode->encode->decode is a fixpoint for DHCPv4 and DHCPv6",
-        stages=[dict(name="fix", shards=S16, timeout={"quick": 900, "thorough": 3600})],
+        stages=[dict(name="fix", shards=S16, timeout={"quick": 900, "thorough": 3600}),
+                dict(name="conc", run="TestConc", shards={"quick": 2, "thorough": 4}, timeout={"quick": 900, "thorough": 3600})],
         rule="every input the library accepts among: generated NON-canonical DHCPv4 packets (unsorted, arbitrarily split, padded, trailing bytes, 64/128-byte names without NUL, hlen up to 255) and their mutants; "
              "hand-built non-canonical DHCPv6 encodings (duplicate ORO codes, reserved 4RD flag bits, host bits beyond a prefix, prefix length 0 with an address, out-of-range prefix lengths, compressed and partial names, "
              "maximal numeric fields, empty class items, embedded non-canonical DHCPv4, duplicate options) wrapped in 0..2 relays; generated DHCPv6 messages and their structure-aware mutants. "
@@ -158,8 +159,11 @@ CHECKS = {
     "C03": dict(
         title="No input can crash decoding or any read-only use of a decoded message",
         stages=[dict(name="crash", shards=S16, timeout={"quick": 1200, "thorough": 7200}),
-                dict(name="checkptr", race=True, shards={"quick": 4, "thorough": 8}, timeout={"quick": 1200, "thorough": 7200}, env={"VERIF_SAMPLE": "8"})],
+                dict(name="checkptr", race=True, shards={"quick": 4, "thorough": 8}, timeout={"quick": 1200, "thorough": 7200}, env={"VERIF_SAMPLE": "8"}),
+                dict(name="conc", run="TestConc", race=True, shards={"quick": 2, "thorough": 4}, timeout={"quick": 1200, "thorough": 7200}),
+                dict(name="concplain", run="TestConc", shards={"quick": 2, "thorough": 4}, timeout={"quick": 1200, "thorough": 7200})],
         crash_is_violation=True,
+        race_violation_pattern=r"runtime\.map(assign|access|delete|iter|clear)",
         rule="entry points: dhcpv4.FromBytes, dhcpv4.Options.FromBytes, dhcpv6.FromBytes / MessageFromBytes / RelayMessageFromBytes, dhcpv6.ParseOption for every typed code (discovered at run time), DUIDFromBytes, "
              "rfc1035label.FromBytes, iana.Archs and every exported dhcpv4 value type's FromBytes, BroadcastRawUDPConn.ReadFrom over scripted frame lists. Inputs: EVERY byte string of length <= 2 per entry point "
              "(<= 3 for four entry points in the thorough tier); generated valid values of every option type, hand-built ZTP/netboot style messages (vendor class / vendor opts / remote-id / circuit-id / boot file formats "
